@@ -37,3 +37,4 @@ import Mb2.Props.FnsTblElf
 import Mb2.Props.FnsTblEfi
 import Mb2.Props.FnsTblTags
 import Mb2.Props.FnsTblIds
+import Mb2.Props.FnsTblFixed
